@@ -22,7 +22,13 @@ def isErr {α : Type} : Except Err α → Prop
   | .error _ => True
   | .ok _ => False
 
+instance {α : Type} (x : Except Err α) : Decidable (isErr x) :=
+  match x with
+  | .error _ => isTrue trivial
+  | .ok _ => isFalse (fun h => h)
+
 /-- a value of type `intmax_t` -/
 def inI (x : Int) : Prop := -(2 ^ 63) ≤ x ∧ x ≤ 2 ^ 63 - 1
+instance (x : Int) : Decidable (inI x) := by unfold inI; infer_instance
 
 end Tetl.C15
